@@ -240,6 +240,9 @@ type server struct {
 	gate  *gateFn
 	hot   *hotFn
 	front *frontFn
+	// afterTurn (round 8): called by runTurns on the controller's goroutine after every turn, while
+	// every request is parked or finished — the output stream reads the process's stdout there
+	afterTurn func(r int)
 }
 
 // frontFn is verif_front($server): a second Server object of the script whose routes forward to the
@@ -417,6 +420,9 @@ func (s *server) runTurns(ids []int, reqs []wire, turns []int) (out []resp, play
 			}
 		case <-time.After(20 * time.Second):
 			return fmt.Errorf("request %d neither reached a gate nor finished within 20s", r)
+		}
+		if s.afterTurn != nil {
+			s.afterTurn(r)
 		}
 		return nil
 	}
